@@ -19,6 +19,16 @@ import (
 
 var _ types.MsgServer = &Keeper{}
 
+// baseClientID returns the light client that backs the given packet identifier: the identifier itself for IBC v2
+// clients, the underlying client for an aliased v1 channel identifier. The relayer allow list is configured per
+// light client, so it must be looked up under the base client also when the packet is addressed through an alias.
+func (k *Keeper) baseClientID(ctx sdk.Context, id string) string {
+	if underlyingClientID, isAlias := k.GetClientForAlias(ctx, id); isAlias {
+		return underlyingClientID
+	}
+	return id
+}
+
 // SendPacket implements the PacketMsgServer SendPacket method.
 func (k *Keeper) SendPacket(goCtx context.Context, msg *types.MsgSendPacket) (*types.MsgSendPacketResponse, error) {
 	ctx := sdk.UnwrapSDKContext(goCtx)
@@ -57,7 +67,7 @@ func (k *Keeper) RecvPacket(goCtx context.Context, msg *types.MsgRecvPacket) (*t
 	}
 
 	// check if this client is allowed to update if v2 config are set
-	config := k.clientV2Keeper.GetConfig(ctx, msg.Packet.DestinationClient)
+	config := k.clientV2Keeper.GetConfig(ctx, k.baseClientID(ctx, msg.Packet.DestinationClient))
 	if !config.IsAllowedRelayer(signer) {
 		return nil, errorsmod.Wrapf(ibcerrors.ErrUnauthorized, "relayer %s is not authorized to update client %s", msg.Signer, msg.Packet.DestinationClient)
 	}
@@ -161,7 +171,7 @@ func (k *Keeper) Acknowledgement(goCtx context.Context, msg *types.MsgAcknowledg
 	}
 
 	// check if this client is allowed to update if v2 config are set
-	config := k.clientV2Keeper.GetConfig(ctx, msg.Packet.SourceClient)
+	config := k.clientV2Keeper.GetConfig(ctx, k.baseClientID(ctx, msg.Packet.SourceClient))
 	if !config.IsAllowedRelayer(relayer) {
 		return nil, errorsmod.Wrapf(ibcerrors.ErrUnauthorized, "relayer %s is not authorized to update client %s", msg.Signer, msg.Packet.SourceClient)
 	}
@@ -215,7 +225,7 @@ func (k *Keeper) Timeout(goCtx context.Context, timeout *types.MsgTimeout) (*typ
 	}
 
 	// check if this client is allowed to update if v2 config are set
-	config := k.clientV2Keeper.GetConfig(ctx, timeout.Packet.SourceClient)
+	config := k.clientV2Keeper.GetConfig(ctx, k.baseClientID(ctx, timeout.Packet.SourceClient))
 	if !config.IsAllowedRelayer(signer) {
 		return nil, errorsmod.Wrapf(ibcerrors.ErrUnauthorized, "relayer %s is not authorized to update client %s", timeout.Signer, timeout.Packet.SourceClient)
 	}
